@@ -30,6 +30,8 @@ pub enum Point {
     AfterSend(usize),
     /// worker `idx`: counter decremented and found crossing the limit, wake-up not yet queued
     AfterDec(usize),
+    /// a worker's `poll`: the `Stop` channel has been looked at, the state arm has not run yet
+    WorkerAfterStopCheck,
 }
 
 type Hook = Box<dyn FnMut(Point)>;
